@@ -3,7 +3,7 @@ export GOFLAGS=-mod=mod
 export GOPROXY=off
 export GOSUMDB=off
 export GOTOOLCHAIN=local
-.PHONY: setup coq clean
+.PHONY: setup coq clean coqchk
 setup: coq
 	python3 checks/check.py --warm || true
 coq:
@@ -11,3 +11,7 @@ coq:
 	cd coq && coq_makefile -f _CoqProject -o Makefile.coq && timeout 3000 $(MAKE) -f Makefile.coq -j16
 clean:
 	cd coq && (test -f Makefile.coq && $(MAKE) -f Makefile.coq cleanall || true); rm -rf build
+# independent re-check of every compiled property file (and all it depends on); prints the axioms relied upon
+coqchk:
+	cd coq && timeout 7000 coqchk -silent -o -Q Model NP -Q Proofs NP -Q Properties NP -Q Gen NP \
+	  NP.C01 NP.C02 NP.C03 NP.C04 NP.C05 NP.C06 NP.C07 NP.C08 NP.C09 NP.C10 NP.C11 NP.C12 NP.C13 NP.C14 NP.C15 NP.C16 NP.C17 NP.C18 NP.C19
